@@ -15,9 +15,10 @@ ALPHA = 'a|\\[]()@!/-^'
 
 
 def split_chunk(args):
-    first, length, ext, pathname = args
+    first, length, ext, pathname = args[:4]
+    win = len(args) > 4 and args[4]
     from wcmatch import _wcparse
-    flags = (_wcparse.EXTMATCH if ext else 0) | (_wcparse.PATHNAME if pathname else 0) | _wcparse.SPLIT | _wcparse.FORCEUNIX
+    flags = (_wcparse.EXTMATCH if ext else 0) | (_wcparse.PATHNAME if pathname else 0) | _wcparse.SPLIT | (_wcparse.FORCEWIN if win else _wcparse.FORCEUNIX)
     bad = []
     n = wf = 0
     for tail in itertools.product(ALPHA, repeat=length - 1):
@@ -32,7 +33,7 @@ def split_chunk(args):
             bad.append((p, 'lossy', str(got)))
             continue
         try:
-            want = splitspec.split(p, ext, pathname)
+            want = splitspec.split(p, ext, pathname, win)
         except splitspec.Malformed:
             continue
         wf += 1
@@ -139,6 +140,8 @@ def run(chk, tier, seed):
     # (a) splitter
     length = 5 if tier == 'quick' else 7
     jobs = [(c, n, ext, pn) for n in range(1, length + 1) for c in ALPHA for ext in (True, False) for pn in (False, True)]
+    # the Windows rules: an escaped backslash ends a bracket expression only in path mode (fix: WcSplit and WcParse agree)
+    jobs += [(c, n, ext, pn, True) for n in range(1, length + 1) for c in ALPHA for ext in (True, False) for pn in (False, True)]
     total = wf = 0
     for n, w, bad in pmap(split_chunk, jobs, chunk=1):
         total += n
@@ -198,10 +201,50 @@ def run(chk, tier, seed):
         lang.apply_ops(chk, ops)
         if st in ('proved', 'known', 'violation'):
             chk.case(key=('list', str(it[:6])))
+    end_to_end(chk, tier, seed)
     chk.rule = (f'(a) every string of length <= {length} over the alphabet {ALPHA!r} x EXTMATCH on/off x PATHNAME on/off through WcSplit.split: never raises, never loses text, and for '
                 'strings whose brackets/groups are all terminated the pieces equal those of the specification splitter; (b) seeded lists of 0-3 inclusion and 0-2 exclusion '
                 'patterns (inline !/- and exclude=, as a list, joined by | under SPLIT, as a brace set under BRACE, permuted/repeated) x {NEGATE, MINUSNEGATE, NEGATEALL, DOTMATCH, NODIR} '
-                'x {fnmatch, glob}: the language of the whole call is compared for ALL names with the boolean combination of the single-pattern denotations (exclusions with DOTMATCH forced)')
+                'x {fnmatch, glob}: the language of the whole call is compared for ALL names with the boolean combination of the single-pattern denotations (exclusions with DOTMATCH forced)'
+                '; (c) the real calls fnmatch/filter/globmatch/globfilter/compile().match on concrete names with 1-3 inclusions and 0-3 exclusions (exclude= and inline) against '
+                'any(single inclusion calls) and not any(single exclusion calls with DOTMATCH)')
     chk.bounds.update(dict(c07_split_strings=total, c07_split_wellformed=wf, c07_list_items=len(items), c07_outcomes=counts))
     chk.sample(dict(patterns=['a*', '!*.b'], flags='NEGATE|EXTMATCH', form='split: "a*|!*.b"'))
     chk.assume('BRACE expansion itself is bracex (assumed = Bash)')
+
+
+def end_to_end(chk, tier, seed):
+    """(c) the matcher itself (the loop over inclusion / exclusion regexes in _Match.match, WcRegexp.filter, compiled objects): a call with a list of
+    patterns and several exclusions answers as the boolean combination of single-pattern calls that have no exclusion at all."""
+    from wcmatch import fnmatch as F, glob as G
+    rnd = random.Random(seed * 7919 + 70)
+    fpool = ['a*', '*.py', '.*', '*b', '?', 'a?c', '*.txt', '[ab]*', '*', 'abc']
+    fnames = ['a', 'b', 'abc', 'a.py', '.a.py', 'b.txt', 'ab', '.x', 'abc.txt', 'c', 'a.b']
+    gpool = ['*', 'd/*', '**/a', '**/*.txt', 'a*', '**/.*', 'd/**', '*/b']
+    gnames = ['a', 'd/a', 'd/b', 'x/y/a', 'a.txt', 'd/a.txt', '.h', 'd/.h', 'ab', 'd/e/b']
+    n = bad = 0
+    for api, pool, names, base in ((F, fpool, fnames, F.U), (G, gpool, gnames, G.U | G.G)):
+        one = api.fnmatch if api is F else api.globmatch
+        flt = api.filter if api is F else api.globfilter
+        combos = [(tuple(rnd.sample(pool, ni)), tuple(rnd.sample(pool, ne))) for ni in (1, 2, 3) for ne in (0, 1, 2, 3) for _ in range(3 if tier == 'quick' else 25)]
+        for incs, excs in combos:
+            for fl in (0, api.D):
+                want = {x for x in names if any(one(x, i, flags=base | fl) for i in incs) and not any(one(x, e, flags=base | fl | api.D) for e in excs)}
+                forms = [('exclude=', list(incs), dict(flags=base | fl, exclude=list(excs)) if excs else dict(flags=base | fl)),
+                         ('inline', list(incs) + ['!' + e for e in excs], dict(flags=base | fl | api.N)),
+                         ('inline-first', ['!' + e for e in excs] + list(incs), dict(flags=base | fl | api.N))]
+                for form, pats, kw in forms:
+                    got = {x for x in names if one(x, pats, **kw)}
+                    gotf = set(flt(names, pats, **kw))
+                    gotc = {x for x in names if api.compile(pats, **kw).match(x)}
+                    n += 1
+                    for how, g in (('match', got), ('filter', gotf), ('compiled', gotc)):
+                        if g != want:
+                            bad += 1
+                            w = sorted(g ^ want)[0]
+                            chk.violation(dict(obligation='C07.bounded.call_is_the_boolean_combination_of_single_pattern_calls', api=api.__name__, how=how, form=form, patterns=str(pats), exclude=str(kw.get('exclude')), witness=w),
+                                          f'{api.__name__} {how} {form}: patterns {pats!r} {kw!r}: name {w!r} answered {w in g}, single-pattern calls say {w in want}',
+                                          f"import sys; sys.path.insert(0, {REPO!r})\nfrom wcmatch import fnmatch, glob\napi = {'fnmatch' if api is F else 'glob'}\n"
+                                          f"print({'api.fnmatch' if api is F else 'api.globmatch'}({w!r}, {pats!r}, **{kw!r}))\nsys.exit(1)\n")
+                    chk.case(key=('e2e', api.__name__, str(pats), str(kw)))
+    chk.bounds['c07_end_to_end_calls'] = n
